@@ -191,6 +191,24 @@ def main():
         bad = vlib.scan_forbidden(closure)
         pr = vlib.check_properties_file(pid)
         rep.model_files = closure
+        if tier == "thorough" and pr["ok"] and ok and not os.environ.get("VERIF_NO_COQCHK"):
+            # independent re-check of the compiled property files and everything they depend on (coqchk), with the list of
+            # axioms / unsafe features it finds; any entry other than <none> fails the proof step
+            rep.coqchk = {}
+            for t in tops:
+                if not t.startswith("Properties_"):
+                    continue
+                rc_, out_ = vlib.sh("ulimit -v 14000000; timeout 1500 coqchk -silent -o -Q . LY LY.%s" % t[:-2], cwd=vlib.COQ, timeout=1600)
+                summ = {}
+                for key in ("Axioms", "Constants/Inductives relying on type-in-type",
+                            "Constants/Inductives relying on unsafe (co)fixpoints", "Inductives whose positivity is assumed"):
+                    import re as _re
+                    m_ = _re.search(_re.escape("* " + key) + r":\s*(.*?)(?:\n\s*\n|\Z)", out_, flags=_re.S)
+                    summ[key] = " ".join(m_.group(1).split()) if m_ else "?"
+                rep.coqchk[t] = {"rc": rc_, "summary": summ}
+                if rc_ != 0 or any(v != "<none>" for v in summ.values()):
+                    pr["ok"] = False
+                    pr["output"] += "\ncoqchk on %s: rc=%s %s" % (t, rc_, summ)
         rep.obligations = pr["theorems"]
         rep.discharged = sum(1 for t in pr["theorems"] if t["checked"])
         axioms = sorted({a for t in pr["theorems"] for a in t["axioms"]})
